@@ -86,10 +86,12 @@ func init() {
 		return mkI(e.rangedVar(strArg(a[0], "nd.IntN"), big.NewInt(0), pow2(bits)))
 	})
 	reg(P+"Dec", func(e *Exec, _ *ssa.Function, a []Value) Value {
+		e.tc.varKind[strArg(a[0], "nd.Dec")] = 'd'
 		return mkD(e.tc.Var(strArg(a[0], "nd.Dec"), SInt))
 	})
 	reg(P+"DecN", func(e *Exec, _ *ssa.Function, a []Value) Value {
 		bits := e.concreteInt(a[1], "nd.DecN bits")
+		e.tc.varKind[strArg(a[0], "nd.DecN")] = 'd'
 		return mkD(e.rangedVar(strArg(a[0], "nd.DecN"), big.NewInt(0), pow2(bits)))
 	})
 	reg(P+"IntS", func(e *Exec, _ *ssa.Function, a []Value) Value {
@@ -99,10 +101,12 @@ func init() {
 	})
 	reg(P+"DecS", func(e *Exec, _ *ssa.Function, a []Value) Value {
 		bits := e.concreteInt(a[1], "nd.DecS bits")
+		e.tc.varKind[strArg(a[0], "nd.DecS")] = 'd'
 		lim := pow2(bits)
 		return mkD(e.rangedVar(strArg(a[0], "nd.DecS"), new(big.Int).Add(new(big.Int).Neg(lim), big.NewInt(1)), lim))
 	})
 	reg(P+"Time", func(e *Exec, _ *ssa.Function, a []Value) Value {
+		e.tc.varKind[strArg(a[0], "nd.Time")] = 't'
 		return &TimeVal{ns: e.rangedVar(strArg(a[0], "nd.Time"), timeLo, timeHi)}
 	})
 	reg(P+"Uint64", func(e *Exec, _ *ssa.Function, a []Value) Value {
